@@ -21,10 +21,10 @@ func init() {
 			"Not decided: the rounding arithmetic itself; behavioural invisibility for all later operations; convergence of time-boxed calls.",
 		TrustedBase: []string{"go/types, go/cfg", "rules C04/R3 and C07/R1", "documented bound: capacity ≤ max(initial capacity, next power of two of size)"},
 		Rules: []Rule{
-			{ID: "C15/R1", Run: c04r3, Min: 3},
+			{ID: "C15/R1", Run: c04r3, Min: 1},
 			{ID: "C15/R2", Run: c15r2, Min: 1},
-			{ID: "C15/R3", Run: c15r3, Min: 3},
-			{ID: "C15/R4", Run: c15r4, Min: 2},
+			{ID: "C15/R3", Run: c15r3, Min: 1},
+			{ID: "C15/R4", Run: c15r4, Min: 1},
 		},
 	})
 }
